@@ -48,6 +48,14 @@ CLAIMED["C13"] = ("Refinement proved for every ring capacity N >= 2 (instantiate
     "start-of-round reserves; ring layout, strictly increasing rounds, search correctness within fuel, exact lookup, documented integer average, rejection of bad windows; composed with the pair model "
     "(pre-operation reserves feed the ring, any number of operations per round). Tied to dex/pair by differential replay incl. injected full/wrapped rings of the real 65536 capacity.", "7 C13",
     "Coq refinement proof (ring = prefix sums) + correspondence")
+CLAIMED["C09"] = ("24 theorems on the locking model (energy factory lock/unlock/penalty paths + token-unstake): every option list addLockOptions accepts is well-formed; the penalty percentage is the floor of the "
+    "piecewise-linear interpolation, monotone, bounded, no division by zero; reduction formula exact; penalty amount exact; lock/unlock 1:1 and time-locked; unbond entries released only when matured, once; "
+    "burn/collector split exact; base supply only re-appears through unlocks of burned amounts plus emission (invariant over all histories). Tied to the real contracts by differential replay and an exhaustive getPenaltyAmount sweep per sampled option set.",
+    "7 C09", "Coq function laws for all option lists + inductive ledger invariant + correspondence (exhaustive view sweep)")
+CLAIMED["C10"] = ("18 theorems on the generic weekly-rewards-splitting model instantiated for the fees collector: share = floor(total*e/E); claim window = the four most recent completed weeks, each (user, week) paid at most once "
+    "over any history; totals frozen once by a claim; deposits claimable from the next week; the expiry-bucket invariant and total_energy(week) = sum of users' decayed energies (safe_sub never saturates); "
+    "sum paid <= deposited per week and token; the collector's balance covers the claimable window; permitted claims never abort. Tied to fees-collector + energy mock by differential replay.", "7 C10",
+    "Coq inductive invariants (bucket bookkeeping refinement) + ghost-ledger history theorem + correspondence")
 NOT_YET = {}
 
 def main():
